@@ -76,6 +76,89 @@ theorem construct_then_chain_sound (O : Oracles) (cls : FieldDecl) (kw : List (S
     wellFormed O cls y = true :=
   entry_chain_sound O cls hw chain x y (construct_sound O cls kw x hw h1) h2
 
+/-! ### the `__validate__` hook clause
+
+The hook is a universally quantified oracle: whatever the class's hook is, every instance obtained through a
+validating entry point is one the hook accepts. -/
+
+/-- what the hooked constructor returns is well-formed and accepted by the class's hook -/
+theorem constructH_sound (O : Oracles) (cls : FieldDecl) (kw : List (String × PyVal)) (x : PyVal)
+    (hw : wfDecl cls = true) (h : constructH O cls kw = .ok x) :
+    wellFormed O cls x = true ∧ O.hookOk (instAttrs x) = true := by
+  unfold constructH at h
+  rcases bindE_eq_ok h with ⟨y, hy, h2⟩
+  by_cases hk : O.hookOk (instAttrs y) = true
+  · simp [hk] at h2; subst h2
+    exact ⟨construct_sound O cls kw y hw hy, hk⟩
+  · simp [hk] at h2
+
+/-- each entry point preserves "well-formed and accepted by the hook" -/
+theorem entryH_sound (O : Oracles) (cls : FieldDecl) (x y : PyVal) (op : EntryOp)
+    (hw : wfDecl cls = true) (hx : wellFormed O cls x = true ∧ O.hookOk (instAttrs x) = true)
+    (h : applyEntryH O cls x op = .ok y) :
+    wellFormed O cls y = true ∧ O.hookOk (instAttrs y) = true := by
+  have key : ∀ z, (bindE (applyEntry O cls x op) fun y => if O.hookOk (instAttrs y) then .ok y else .error .valueErr)
+      = .ok z → wellFormed O cls z = true ∧ O.hookOk (instAttrs z) = true := by
+    intro z hz
+    rcases bindE_eq_ok hz with ⟨w, hw1, h2⟩
+    by_cases hk : O.hookOk (instAttrs w) = true
+    · simp [hk] at h2; subst h2
+      exact ⟨entry_sound O cls x w op hw hx.1 hw1, hk⟩
+    · simp [hk] at h2
+  cases op <;> simp only [applyEntryH] at h
+  · cases h; exact hx
+  · cases h; exact hx
+  · cases h; exact hx
+  · exact key y h
+  · exact key y h
+  · exact key y h
+  · exact key y h
+
+/-- **C01 with the hook clause**: any chain of validating entry points applied to a constructed instance
+    yields an instance that is well-formed and that the class's own `__validate__` hook accepts -/
+theorem entryH_chain_sound (O : Oracles) (cls : FieldDecl) (hw : wfDecl cls = true) :
+    ∀ (chain : List EntryOp) (x y : PyVal),
+      (wellFormed O cls x = true ∧ O.hookOk (instAttrs x) = true) →
+      runChainH O cls x chain = .ok y → wellFormed O cls y = true ∧ O.hookOk (instAttrs y) = true
+  | [], x, y, hx, h => by simp only [runChainH] at h; cases h; exact hx
+  | op :: rest, x, y, hx, h => by
+    simp only [runChainH] at h
+    rcases bindE_eq_ok h with ⟨z, hz, h2⟩
+    exact entryH_chain_sound O cls hw rest z y (entryH_sound O cls x z op hw hx hz) h2
+
+theorem constructH_then_chain_sound (O : Oracles) (cls : FieldDecl) (kw : List (String × PyVal))
+    (chain : List EntryOp) (x y : PyVal) (hw : wfDecl cls = true)
+    (h1 : constructH O cls kw = .ok x) (h2 : runChainH O cls x chain = .ok y) :
+    wellFormed O cls y = true ∧ O.hookOk (instAttrs y) = true :=
+  entryH_chain_sound O cls hw chain x y (constructH_sound O cls kw x hw h1) h2
+
+/-- without a hook the hooked constructor is the constructor -/
+theorem constructH_no_hook (O : Oracles) (cls : FieldDecl) (kw : List (String × PyVal))
+    (h : ∀ s, O.hookOk s = true) : constructH O cls kw = construct O cls kw := by
+  unfold constructH
+  cases construct O cls kw <;> simp [bindE, h]
+
+/-- a hook that rejects `b == True`: the constructor and an overriding clone are refused, a copy chain of an
+    accepted instance is accepted -/
+theorem hook_example :
+    let O : Oracles := { reMatch := fun _ _ => true,
+                         hookOk := fun s => match lookup "b" s with | some (.bool true) => false | _ => true }
+    (match constructH O (.struct { name := "A", required := ["a"], addl := false, accepts := ["A"] }
+          [("a", .integer {}), ("b", .anyOf [.boolean, .noneF])] []) [("a", .int 1), ("b", .str "True")] with
+      | .error .valueErr => true | _ => false) = true
+    ∧ (match constructH O (.struct { name := "A", required := ["a"], addl := false, accepts := ["A"] }
+          [("a", .integer {}), ("b", .anyOf [.boolean, .noneF])] []) [("a", .int 1), ("b", .bool false)] with
+      | .ok (.inst "A" _) => true | _ => false) = true
+    ∧ (match runChainH O (.struct { name := "A", required := ["a"], addl := false, accepts := ["A"] }
+          [("a", .integer {}), ("b", .anyOf [.boolean, .noneF])] []) (.inst "A" [("a", .int 1), ("b", .bool false)])
+          [.copy, .shallowClone [("b", .bool true)]] with
+      | .error .valueErr => true | _ => false) = true
+    ∧ (match runChainH O (.struct { name := "A", required := ["a"], addl := false, accepts := ["A"] }
+          [("a", .integer {}), ("b", .anyOf [.boolean, .noneF])] []) (.inst "A" [("a", .int 1), ("b", .bool false)])
+          [.deepcopy, .shallowClone [("a", .int 2)], .castTo] with
+      | .ok (.inst "A" _) => true | _ => false) = true := by
+  decide
+
 /-! ### non-vacuity -/
 
 def exO : Oracles := { reMatch := fun _ _ => true }
